@@ -20,7 +20,7 @@ BOUNDS = {
     "quick": "|d|<=2 on ab/explicit; |d|<=1 on abc/explicit, at/explicit, depth-3 chains d3/ab, wide/1 (16-bit leaves: region alphabet for assumed values, remaining leaves and completions); |d|<=1 over compound ids on diamond/explicit",
     "thorough": "|d|<=2 on abc/explicit, at/explicit, ab/generated; |d|<=1 on abt, abct, diamonds (all ids), d3/abc",
 }
-QUICK = [("ab/explicit", 2, "all"), ("abc/explicit", 1, "all"), ("at/explicit", 1, "all"), ("diamond/explicit", 1, "compounds"), ("wide/1", 1, "all"), ("d3/ab/explicit", 1, "all")]
+QUICK = [("ab/explicit", 2, "all"), ("abc/explicit", 1, "all"), ("at/explicit", 1, "all"), ("diamond/explicit", 1, "compounds"), ("wide/1", 1, "all"), ("d3/ab/explicit", 1, "all"), ("fixed/ab", 1, "compounds")]
 THOROUGH = [("ab/explicit", 2, "all"), ("abc/explicit", 2, "all"), ("at/explicit", 2, "all"), ("ab/generated", 2, "all"),
             ("abt/explicit", 1, "all"), ("abct/explicit", 1, "all"), ("diamond/explicit", 1, "all"), ("diamond/generated", 1, "compounds"),
             ("d3/abc/explicit", 1, "all"), ("fixed/ab", 1, "all")]
@@ -84,7 +84,9 @@ def check_model(m, acc, fam, k, maxd, which, only_d=None):
             entries.append(("L", i, i, leaf_values(*leaves[i])))
     for c in comps:
         if c[5] is not None and c[5][0] == c[5][1]:
-            continue          # pre-fixed by construction: an assumption could only contradict or repeat it
+            # pre-fixed by construction: assume() is documented to return a proposition "with these new bounds set", so the assumed constant wins
+            entries.append(("N", c, idof[c], [(0, 0), (1, 1)]))
+            continue
         entries.append(("N", c, idof[c], [(0, 0), (1, 1), (0, 1)]))
     di = -1
     for r in range(1, maxd + 1):
